@@ -243,12 +243,16 @@ def run(chk):
                 chk.tie_broken("model evaluation failed", e.log[-1500:])
     finally:
         shutil.rmtree(tmp, ignore_errors=True)
+    chk.notes["schedule_probe"] = dict(sd.PROBE, what="status files written by Cluster while the lock file is absent are followed "
+                                       "by a reader's observation, judged by the status_inv oracle")
     chk.notes["rule"] = ("cases = histories (job table + operations) executed on the real Cluster; directed lifecycles, random "
                          "histories of operations satisfying the round preconditions, a malformed stream breaking one "
                          "precondition per operation; non-trivial = at least two operations (valid) / at least one broken "
                          "precondition (malformed); distinct by content hash")
     chk.coverage["rule"] = chk.notes["rule"]
-    chk.assumptions += ["one live Cluster object at a time (stale objects / concurrent writers are C10)",
+    chk.assumptions += ["every Cluster operation is one lock hold in the model; checked on impl by the schedule probe (reader after "
+                        "every unlocked write), not proved",
+                        "one live Cluster object at a time (stale objects / concurrent writers are C10)",
                         "hash(json) equality modelled as content equality (no hash collisions)",
                         "job names unique in the configuration (JobConfiguration.add_job enforces it)"]
 
